@@ -124,6 +124,32 @@ theorem guarded_local (S : Path → Prop) (t : Path) (k : Fs → Fs × Bool) (ht
   · exact l2.set t _
   · exact l2
 
+theorem guardedNoLink_frame (fs : Fs) (t x : Path) (k : Fs → Fs × Bool) (hx : x ≠ t)
+    (hk : ∀ g, (k g).1 x = g x) : (guardedNoLink fs t k).1 x = fs x := by
+  unfold guardedNoLink
+  split
+  · rfl
+  · exact guarded_frame fs t x k hx hk
+
+theorem guardedNoLink_fail (fs : Fs) (t : Path) (k : Fs → Fs × Bool)
+    (hk : ∀ g, (k g).2 = true → (k g).1 = g) (h : (guardedNoLink fs t k).2 = true) :
+    (guardedNoLink fs t k).1 = fs := by
+  unfold guardedNoLink at h ⊢
+  split
+  · rfl
+  · rename_i hl
+    simp only [hl] at h
+    exact guarded_fail fs t k hk h
+
+theorem guardedNoLink_local (S : Path → Prop) (t : Path) (k : Fs → Fs × Bool) (ht : S t) (hk : LocalOn S k) :
+    LocalOn S (fun g => guardedNoLink g t k) := by
+  intro g g' hag
+  have hl : Fs.isLink g t = Fs.isLink g' t := by simp [Fs.isLink, hag t ht]
+  simp only [guardedNoLink, hl]
+  split
+  · exact ⟨rfl, hag⟩
+  · exact guarded_local S t k ht hk g g' hag
+
 /-! ### `add_header_to_file` -/
 
 theorem writeHeader_frame (env : Env) (a : Args) (t x : Path) (hx : x ≠ t) (g : Fs) :
@@ -167,7 +193,7 @@ theorem addHeader_frame (env : Env) (a : Args) (t1 x : Path)
   split
   · rfl
   · split
-    · exact guarded_frame fs _ x _ h2 (writeHeader_frame env a _ x h2)
+    · exact guardedNoLink_frame fs _ x _ h2 (writeHeader_frame env a _ x h2)
     · exact writeHeader_frame env a t1 x h1 fs
 
 theorem addHeader_fail (env : Env) (a : Args) (t1 : Path) (fs : Fs)
@@ -181,7 +207,7 @@ theorem addHeader_fail (env : Env) (a : Args) (t1 : Path) (fs : Fs)
     split
     · rename_i h2
       simp only [h2, if_true] at h
-      exact guarded_fail fs _ _ (writeHeader_fail env a _) h
+      exact guardedNoLink_fail fs _ _ (writeHeader_fail env a _) h
     · rename_i h2
       simp only [h2] at h
       exact writeHeader_fail env a t1 fs h
@@ -194,7 +220,7 @@ theorem addHeader_local (env : Env) (a : Args) (S : Path → Prop) (t1 : Path)
   split
   · exact ⟨rfl, hag⟩
   · split
-    · exact guarded_local S _ _ h2 (writeHeader_local env a S _ h2) g g' hag
+    · exact guardedNoLink_local S _ _ h2 (writeHeader_local env a S _ h2) g g' hag
     · exact writeHeader_local env a S t1 h1 g g' hag
 
 /-! ### one loop iteration -/
@@ -205,7 +231,7 @@ theorem step_frame (env : Env) (a : Args) (fs : Fs) (p x : Path) (hx : x ∉ wri
   obtain ⟨h0, h1, h2⟩ := hx
   unfold step
   split
-  · exact guarded_frame fs _ x _ h1 (addHeader_frame env a _ x h1 h2)
+  · exact guardedNoLink_frame fs _ x _ h1 (addHeader_frame env a _ x h1 h2)
   · exact addHeader_frame env a p x h0 h1 fs
 
 theorem step_fail (env : Env) (a : Args) (fs : Fs) (p : Path)
@@ -214,7 +240,7 @@ theorem step_fail (env : Env) (a : Args) (fs : Fs) (p : Path)
   split
   · rename_i hs
     simp only [hs, if_true] at h
-    exact guarded_fail fs _ _ (addHeader_fail env a _) h
+    exact guardedNoLink_fail fs _ _ (addHeader_fail env a _) h
   · rename_i hs
     simp only [hs] at h
     exact addHeader_fail env a p fs h
@@ -228,7 +254,7 @@ theorem step_local (env : Env) (a : Args) (fs fs' : Fs) (p : Path)
   have m2 : licSuffix (licSuffix p) ∈ writeSet p := by simp [writeSet]
   unfold step
   split
-  · exact guarded_local (· ∈ writeSet p) _ _ m1 (addHeader_local env a _ _ m1 m2) fs fs' h
+  · exact guardedNoLink_local (· ∈ writeSet p) _ _ m1 (addHeader_local env a _ _ m1 m2) fs fs' h
   · exact addHeader_local env a (· ∈ writeSet p) p m0 m1 fs fs' h
 
 /-! ### the loop -/
